@@ -8,7 +8,7 @@ EXPLANATION = ("Static MIR rules on crate mla-bindings-c: (R20.1) in every exter
                "Box::from_raw is followed on all normal exits by Box::leak/into_raw of that box unless the caller's handle was nulled before (release "
                "functions); (R20.3) MLAStatus::Success is not reachable from the Err outcome of any fallible library call, results are not dropped; "
                "R20.1 also requires that with the non-null edges of a handle's tests cut no Success status is reachable (no early success above the null tests); R20.3 also requires that no `From<..> for MLAStatus` conversion yields Success and follows map_or_else error functions; "
-               "(R20.9) every field of the CallbackOutput registered for a file (write callback, flush callback, context) must-derives from the FileWriter the per-file callback filled (assume_init), not from an argument of the extraction call; (R20.8) no field of the callback adapters is updated from the requested length without the count the callback reported; (R20.7) at every call of a dependency function that discards the io::Error of the writes it issues (brotli CompressorWriter::into_inner), inside a function returning a Result, the writer handed back is asked for the error it recorded on every path to Ok; "
+               "(R20.10) a callback adapter builds no Err of its own before the callback is invoked (failed integer conversions, which leave through `?`, aside); (R20.9) every field of the CallbackOutput registered for a file (write callback, flush callback, context) must-derives from the FileWriter the per-file callback filled (assume_init), not from an argument of the extraction call; (R20.8) no field of the callback adapters is updated from the requested length without the count the callback reported; (R20.7) at every call of a dependency function that discards the io::Error of the writes it issues (brotli CompressorWriter::into_inner), inside a function returning a Result, the writer handed back is asked for the error it recorded on every path to Ok; "
                "(R20.4) the callback adapters return Ok only on callback status 0, with the count the callback reported; (R20.5) extraction registers "
                "only writers initialised by the file callback under its status-0 edge and goes through linear_extract; (R20.6) no BufWriter / LineWriter stands in front of a "
                "caller callback unless every path to Success passes its flush (whose result R20.3 examines). Byte equality with the Rust "
@@ -397,6 +397,14 @@ def run(prog, rep, tier):
             continue
         cb = ind[0]
         st = cb.term.dest[0]
+        # R20.10 "behaves like the Rust interface": the adapter hands every request to the caller's callback -- the only refusals of its own are failed
+        # integer conversions (`try_from(..).map_err(..)?`). An explicit Err built before the callback (a request "that makes no sense", e.g. End(0))
+        # refuses something the Rust reader accepts from the same source
+        early = [(b.idx, i) for b in body.blocks if not b.cleanup and not body.dominates(cb.idx, b.idx) for i, s_ in enumerate(b.stmts)
+                 if s_.kind == 'assign' and s_.place == (0, ()) and s_.rv.r == 'aggregate' and s_.rv.j.get('variant') == 'Err']
+        rep.ob('R20.10', not early, 'R20.10|%s|no-refusal-before-the-callback' % body.nkey, 'every request reaches the callback (conversion failures aside)' if not early else
+               'the adapter refuses a request by itself, before the callback is asked (%s): an operation the Rust interface performs on the same source (e.g. '
+               'seek(End(0)) to measure it) fails through the C interface' % ', '.join(body.loc(bb_, i_) for bb_, i_ in early), body.loc(early[0][0], early[0][1]) if early else body.loc())
         all_oks = [(b.idx, i, s) for b in body.blocks if not b.cleanup for i, s in enumerate(b.stmts) if s.kind == 'assign' and s.rv.r == 'aggregate' and s.rv.j.get('variant') == 'Ok' and 'Result' in (s.rv.j.get('adt') or '')]
         oks = [x for x in all_oks if x[2].place == (0, ())]
         sws = [b for b in body.blocks if b.term.kind == 'switch' and b.term.discr.place is not None and not b.cleanup and
